@@ -207,7 +207,8 @@ PROPS = {
                   K("zpt/loader.py::TemplateLoader.load"), K("zpt/template.py::PageTemplateFile.__init__.post_init"),
                   U('pyvc.frames', 'search_path_frame', 'search_path_frame'),
                   U('pyvc.frames', 'render_write_frame', 'render.write_frame'),
-                  U('pyvc.frames', 'cook_drops_stale', 'cook.drops_stale_functions')],
+                  U('pyvc.frames', 'cook_drops_stale', 'cook.drops_stale_functions'),
+                  U('pyvc.frames', 'file_options_frame', 'PageTemplateFile.__init__.options_frame')],
         "not_decided": ["package-relative resolution ('pkg:path' specs and search-path entries)",
                         "the load: expression's own use of the relative loader (zpt/template.py _builtins / ProxyExpr)"],
         "assumptions": COMMON_ASSUMPTIONS + ["file system unchanged during one call"],
